@@ -23,9 +23,12 @@ def fresh_root(node, memo=None):
     return r
 
 
-def child_of(t, view, key, via_slice=False):
+def child_of(t, view, key, via_slice=False, via_iter=False):
     k = kind(t)
     if k in ('vec', 'list'):
+        if via_iter:
+            # the child is one of the views handed out by iterating the parent to the end
+            return t[1], list(view)[key]
         if via_slice:
             # the child is taken out of a slice of (up to) two elements
             return t[1], view[key:min(key + 2, len(view))][0]
@@ -71,9 +74,9 @@ def run_store(t, v, ops):
             E(lambda: vv.hash_tree_root())
         try:
             o = op[0]
-            if o in ('child', 'childs'):
+            if o in ('child', 'childs', 'childi'):
                 pt, pv = views[int(op[1])]
-                ct, cv = child_of(pt, pv, int(op[2]), via_slice=(o == 'childs'))
+                ct, cv = child_of(pt, pv, int(op[2]), via_slice=(o == 'childs'), via_iter=(o == 'childi'))
                 if isinstance(ct, str) or kind(ct) in ('Bv', 'Bl') or cv is None:
                     raise ValueError("not a mutable child view")
                 parent[len(views)] = int(op[1])
@@ -88,6 +91,13 @@ def run_store(t, v, ops):
                     apply_op(vt, vv, op[2])
                     views[top][1].hash_tree_root()
                 _, cost = P.hashes_during(run)
+            elif o == 'assign':
+                pt, pv = views[int(op[1])]
+                ct, cv = views[int(op[3])]
+                if kind(pt) == 'cont':
+                    setattr(pv, 'f%d' % int(op[2]), cv)
+                else:
+                    pv[int(op[2])] = cv
             elif o == 'copy':
                 vt, vv = views[int(op[1])]
                 parent[len(views)] = None
